@@ -1308,6 +1308,20 @@ impl Sessions {
         Ok((value, to_persist))
     }
 
+    /// Take back the boundary extension of a reservation whose
+    /// `boundary_to_persist` could not be stored.
+    ///
+    /// The reservation moved the in-memory boundary before the caller wrote it.
+    /// If the write fails, storage still holds the old boundary, so the values
+    /// from the live counter onwards are covered by nothing durable - yet later
+    /// reservations would hand them out without demanding a write, and a restart
+    /// would replay them. Falling back to "nothing is covered" (boundary ==
+    /// counter) makes the next reservation extend the boundary and demand the
+    /// write again. The value of the failed reservation is burned, unsent.
+    pub(crate) fn uncover_global_group_data_ctr(&mut self) {
+        self.group_data_ctr_boundary = self.global_group_data_ctr;
+    }
+
     /// Get or create a TX group session for sending group data messages to
     /// `(fab_idx, group_id)`.
     ///
